@@ -16,11 +16,15 @@ Sub-checks: ``euler_maruyama``, ``milstein``, ``semi_implicit`` (final state of 
 draw count), ``draw_accounting`` (normal numbers inferred from single steps), ``seed_reproducible``,
 ``zero_noise_deterministic`` (numpy backend), ``zero_noise_numba`` (numba backend, interpreted) and
 ``zero_noise_numba_jit`` (small compiled sample), ``tiny_variance`` (variances below 1e-14 on tiny
-cells; were treated as zero before fix 2992ecc).
+cells; were treated as zero before fix 2992ecc), ``numba_components_independent`` (numba backend: the
+normal numbers inferred from one step are not the same realization for two components / fields; the
+draws themselves cannot be compared with a reference there), ``noise_dict_reused`` (several equations
+built from ONE shared ``noise`` dict / list / array object each add the documented increment).
 """
 
 from __future__ import annotations
 
+import copy
 import math
 
 import numpy as np
@@ -32,6 +36,7 @@ env.setup()
 
 import pde  # noqa: E402
 from pde import PDE, DiffusionPDE, FieldCollection, KPZInterfacePDE, ScalarField, Tensor2Field, VectorField  # noqa: E402
+from pde.pdes import ReactionDiffusionPDE  # noqa: E402
 from pde.pdes.base import SDEBase  # noqa: E402
 
 from vlib import gen_grids as gg  # noqa: E402
@@ -125,6 +130,20 @@ class LocalSDE(SDEBase):
         return out
 
 
+class NumbaLocalSDE(LocalSDE):
+    """purely local harness equation (D = 0) that also offers ``make_evolution_rate`` so that it can be
+    solved on the numba backend (the closure is plain arithmetic: compilable and interpretable)"""
+
+    def make_evolution_rate(self, state, backend):
+        a, b, w = float(self.a), float(self.b), float(self.w)
+        assert not self.D
+
+        def rhs(arr, t):
+            return a * arr + b * np.cos(w * t)
+
+        return rhs
+
+
 class MultiplicativeSDE(LocalSDE):
     """harness subclass overriding make_noise_variance (variance s2*u^2 or s2*(1+u^2))"""
 
@@ -165,9 +184,12 @@ NICE_VAR = [1.0, 0.1, 0.5, 2.0, 0.01, 0.3]
 
 @st.composite
 def sde_cases(draw, solvers=("euler",), families=("harness", "harness", "harness", "harness", "pde", "pde", "diffusion", "kpz"),
-              nonuniform=True, linear_only=False, theta_max=0.45, s_lo=1e-3, zero_frac=True, max_steps=20):
+              nonuniform=True, linear_only=False, theta_max=0.45, s_lo=1e-3, zero_frac=True, max_steps=20,
+              min_cells=1, pde_variants=("scalar", "vector", "two_scalars", "scalar_vector", "three"),
+              noise_as_options=("scalar", "list", "dict", "array")):
     classes = ("polar", "sph", "cyl", "polar", "sph", "cyl", "cart", "cart", "unit") if nonuniform else gg.ALL_CLASSES
-    spec = draw(gg.grids(classes=classes, max_cells=6, max_total=48, len_lo=1e-2, len_hi=1e2, offset_mag=10))
+    spec = draw(gg.grids(classes=classes, min_cells=min_cells, max_cells=6, max_total=48, len_lo=1e-2, len_hi=1e2,
+                         offset_mag=10))
     dim = gg.dim_of(spec)
     family = draw(st.sampled_from(list(families)))
     if linear_only and family == "kpz":
@@ -196,8 +218,20 @@ def sde_cases(draw, solvers=("euler",), families=("harness", "harness", "harness
         if family == "kpz":
             eq.update(lmbda=draw(st.sampled_from([1.0, -0.5, 0.2])))
         interp = "ito"  # these classes have no interpretation argument
+    elif family == "rd":  # ReactionDiffusionPDE: scalar species, forwards `noise` to PDE
+        nvar = draw(st.sampled_from([2, 2, 3]))
+        names = ["a", "b", "c"][:nvar]
+        k = draw(st.sampled_from([0.5, 1.0, 0.0, 2.0]))
+        D = draw(st.sampled_from([1.0, 0.1, 0.5]))
+        diffusivity = D if draw(st.booleans()) else [D, 0.0, 0.5 * D][:nvar]
+        src = {"a": f"-{k} * b", "b": f"{k} * a - b", "c": "sin(t) - c"}
+        skind, ranks, kind = "collection", [0] * nvar, "const"
+        eq.update(variables=names, diffusivity=diffusivity, sources={nm: src[nm] for nm in names},
+                  sources_as=draw(st.sampled_from(["dict", "list"])), k=k, D=D,
+                  noise_as=draw(st.sampled_from(list(noise_as_options))))
+        interp = "ito"
     else:  # PDE class with expressions
-        variant = draw(st.sampled_from(["scalar", "vector", "two_scalars", "scalar_vector", "three"]))
+        variant = draw(st.sampled_from(list(pde_variants)))
         k = draw(st.sampled_from([0.5, 1.0, 0.0, 2.0]))
         D = draw(st.sampled_from([1.0, 0.1, 0.5]))
         kind = "const"
@@ -205,6 +239,8 @@ def sde_cases(draw, solvers=("euler",), families=("harness", "harness", "harness
             skind, ranks, rhs = "scalar", [0], {"u": f"{D} * laplace(u) - {k} * u"}
         elif variant == "vector":
             skind, ranks, rhs, D = "vector", [1], {"v": f"-{k} * v"}, 0.0
+        elif variant == "tensor":
+            skind, ranks, rhs, D = "tensor", [2], {"T": f"-{k} * T + cos(t)"}, 0.0
         elif variant == "two_scalars":
             skind, ranks = "collection", [0, 0]
             rhs = {"a": f"{D} * laplace(a) - {k} * b", "b": f"{k} * a - b"}
@@ -214,7 +250,7 @@ def sde_cases(draw, solvers=("euler",), families=("harness", "harness", "harness
         else:
             skind, ranks = "collection", [1, 0, 0]
             rhs = {"v": f"-{k} * v", "a": f"{D} * laplace(a)", "b": "a - b"}
-        eq.update(rhs=rhs, k=k, D=D, noise_as=draw(st.sampled_from(["scalar", "list", "dict", "array"])))
+        eq.update(rhs=rhs, k=k, D=D, noise_as=draw(st.sampled_from(list(noise_as_options))))
     # ---- time step ---------------------------------------------------------------------------
     lip = D * laplace_norm_bound(spec) + abs(eq.get("a", 0.0)) + 2 * abs(eq.get("k", 0.0)) + 1.0
     dt_stab = theta_max / lip
@@ -236,7 +272,7 @@ def sde_cases(draw, solvers=("euler",), families=("harness", "harness", "harness
         else:
             layout = draw(st.sampled_from(["scalar", "per_component", "per_component", "per_last_index"]))
             count = {"scalar": 1, "per_component": ncomp[0], "per_last_index": dim}[layout]
-    elif family == "pde":
+    elif family in ("pde", "rd"):
         if skind == "scalar":
             # PDE({"u": ...}, noise={"u": v} / [v]) on a ScalarField ends in a ValueError of
             # np.broadcast_to inside make_noise_variance: a single scalar field takes a plain number
@@ -336,15 +372,45 @@ def make_rng(case, reference=False):
     return g
 
 
-def make_equation(case, grid, rng, noise_on=True):
-    """the equation under test; ``noise_on=False`` gives its deterministic counterpart"""
+def field_names(eq):
+    return list(eq["variables"]) if eq["family"] == "rd" else list(eq["rhs"])
+
+
+def pde_noise_argument(case, reverse=False):
+    """the ``noise`` argument of the PDE / ReactionDiffusionPDE classes in the requested format"""
+    eq, vals = case["eq"], case["noise"]["values"]
+    names = field_names(eq)
+    if eq["noise_as"] == "scalar":
+        return vals[0]
+    if eq["noise_as"] == "list":
+        return list(vals)
+    if eq["noise_as"] == "array":
+        return np.array(vals)
+    # dict: zero entries are left out (documented default 0); the order of the keys is irrelevant
+    pairs = [(nm, v) for nm, v in zip(names, vals) if v != 0] or [(names[0], 0.0)]
+    return dict(reversed(pairs) if reverse else pairs)
+
+
+def rd_as_pde_rhs(eq):
+    """the documented right-hand side of ReactionDiffusionPDE written out for the PDE class"""
+    names = eq["variables"]
+    diff = np.broadcast_to(eq["diffusivity"], (len(names),))
+    return {nm: f"{float(d)} * laplace({nm}) + {eq['sources'][nm]}" for nm, d in zip(names, diff)}
+
+
+def make_equation(case, grid, rng, noise_on=True, noise_obj=None, rhs_obj=None, as_pde=False):
+    """the equation under test; ``noise_on=False`` gives its deterministic counterpart.
+
+    ``noise_obj`` / ``rhs_obj``: caller-owned objects handed to the PDE classes *as they are* (to build
+    several equations from the same specification objects)"""
     eq, interp = case["eq"], case["interp"]
     fam = eq["family"]
     if fam == "harness":
         kind = eq["kind"]
         if kind == "const" or not noise_on:
             noise = noise_argument(case, grid) if noise_on else 0
-            return LocalSDE(eq["a"], eq["b"], eq["w"], eq["D"], noise=noise, noise_interpretation=interp, rng=rng)
+            cls = NumbaLocalSDE if eq.get("numba") else LocalSDE
+            return cls(eq["a"], eq["b"], eq["w"], eq["D"], noise=noise, noise_interpretation=interp, rng=rng)
         return MultiplicativeSDE(eq["a"], eq["b"], eq["w"], eq["D"], kind=kind, sig2_full=variance_full(case, grid),
                                  noise_interpretation=interp, rng=rng)
     if fam == "diffusion":
@@ -352,21 +418,26 @@ def make_equation(case, grid, rng, noise_on=True):
     if fam == "kpz":
         return KPZInterfacePDE(nu=eq["D"], lmbda=eq["lmbda"], bc=BC, noise=case["noise"]["values"][0] if noise_on else 0,
                                rng=rng)
-    vals = case["noise"]["values"]
-    names = list(eq["rhs"])
     if not noise_on:
         noise = 0
-    elif eq["noise_as"] == "scalar":
-        noise = vals[0]
-    elif eq["noise_as"] == "list":
-        noise = list(vals)
-    elif eq["noise_as"] == "array":
-        noise = np.array(vals)
-    else:  # dict: zero entries are left out (documented default 0)
-        noise = {nm: v for nm, v in zip(names, vals) if v != 0}
-        if not noise:
-            noise = {names[0]: 0.0}
-    return PDE(dict(eq["rhs"]), bc=BC, noise=noise, noise_interpretation=interp, rng=rng)
+    elif noise_obj is not None:
+        noise = noise_obj
+    else:
+        noise = pde_noise_argument(case)
+    if fam == "rd" and not as_pde:
+        names = eq["variables"]
+        if rhs_obj is not None:
+            sources = rhs_obj
+        elif eq["sources_as"] == "dict":
+            sources = dict(eq["sources"])
+        else:
+            sources = [eq["sources"][nm] for nm in names]
+        return ReactionDiffusionPDE(list(names), eq["diffusivity"], sources, bc=BC, noise=noise, rng=rng)
+    if rhs_obj is not None:
+        rhs = rhs_obj
+    else:
+        rhs = rd_as_pde_rhs(eq) if fam == "rd" else dict(eq["rhs"])
+    return PDE(rhs, bc=BC, noise=noise, noise_interpretation=interp, rng=rng)
 
 
 def ref_variance(case, s2, u):
@@ -482,10 +553,14 @@ def check_draw_count(eq, model, case):
 # explicit solvers: final state of an n-step run against the reference recursion
 # --------------------------------------------------------------------------------------
 def check_explicit(case):
-    model = Model(case)
     grid = gg.build_grid(case["grid"])
+    return judge_explicit(case, grid, make_equation(case, grid, make_rng(case)))
+
+
+def judge_explicit(case, grid, eq):
+    """n-step run of the given equation (built for ``case`` on ``grid``) against the reference recursion"""
+    model = Model(case)
     state = make_state(grid, case)
-    eq = make_equation(case, grid, make_rng(case))
     if not eq.is_sde:
         raise Violation(f"equation with variances {case['noise']['values']} reports is_sde=False",
                         key=bucket(case, "is_sde"))
@@ -779,6 +854,191 @@ def check_tiny_variance(case):
 
 
 # --------------------------------------------------------------------------------------
+# numba backend: every component / field gets its own normal numbers
+# --------------------------------------------------------------------------------------
+VAR_FACTORS = [1.0, 0.5, 2.0, 0.25, 1.0]
+
+
+@st.composite
+def independent_cases(draw, solvers=("euler", "milstein", "implicit"), families=("harness", "harness", "pde")):
+    """multi-component states (vector, tensor, collection of 2-3 fields) on grids with >= 3 cells, additive noise
+    with non-zero variance for every component, purely local or Laplacian-coupled linear rate"""
+    case = draw(sde_cases(solvers=solvers, families=families, linear_only=True, theta_max=0.3, s_lo=0.03,
+                          zero_frac=False, max_steps=3, min_cells=3,
+                          pde_variants=("vector", "tensor", "two_scalars", "scalar_vector", "three")))
+    dim = gg.dim_of(case["grid"])
+    eq = case["eq"]
+    v = max(case["noise"]["values"])
+    if eq["family"] == "harness":
+        skind = draw(st.sampled_from(["vector", "tensor", "collection", "collection"]))
+        if skind == "collection":
+            ranks = draw(st.lists(st.sampled_from([0, 0, 1, 2]), min_size=2, max_size=3))
+            layout = draw(st.sampled_from(["scalar", "per_field", "per_field"]))
+            count = len(ranks) if layout == "per_field" else 1
+        else:
+            ranks = [1] if skind == "vector" else [2]
+            layout = draw(st.sampled_from(["scalar", "per_component", "per_component", "per_last_index"]))
+            count = {"scalar": 1, "per_component": dim ** ranks[0], "per_last_index": dim}[layout]
+        eq.update(D=0.0, kind="const", numba=True)
+        if draw(st.integers(0, 3)) == 0:  # equation without deterministic part
+            eq.update(a=0.0, b=0.0)
+        case["state"].update(kind=skind, ranks=ranks)
+        case["noise"].update(kind="const", layout=layout)
+    else:
+        count = len(case["noise"]["values"])
+    # all variances positive (every component is judged), different per component / field
+    factors = draw(st.lists(st.sampled_from(VAR_FACTORS), min_size=count, max_size=count))
+    case["noise"]["values"] = [float(v * f) for f in factors]
+    if case["solver"] == "implicit":
+        case["maxerror"] = draw(st.sampled_from([1e-12, 1e-13]))  # the iteration error stays far below the noise
+    case["backend"] = "numba"
+    return case
+
+
+def check_components_independent(case):
+    """The numba backend uses numba's own generator, so the draws cannot be predicted.  Deterministic signature
+    of independent draws: the normal numbers inferred from one step,
+
+        xi = (u' - u - dt f(u, t)) / sqrt(var dt / V)        (explicit solvers, additive noise)
+        xi = (u' - dt f(u', t + dt) - u) / sqrt(var dt / V)  (semi-implicit solver)
+
+    are not the same array for two different components / fields (equality of two independent continuous
+    draws in all >= 3 cells has probability zero), and not the same array in two successive steps."""
+    from pde.backends.numba.utils import random_seed
+
+    backend = case["backend"]
+    model = Model(case)
+    grid = gg.build_grid(case["grid"])
+    state = make_state(grid, case)
+    eq = make_equation(case, grid, make_rng(case))
+    if not eq.is_sde:
+        raise Violation(f"equation with variances {case['noise']['values']} reports is_sde=False",
+                        key=f"independent:{backend}:is_sde")
+    random_seed(int(case["rng"]["seed"]) % 2**31)  # replays see the same realization
+    dt, n = case["dt"], case["n"]
+    ncell = int(np.prod(grid.shape))
+    amp = np.broadcast_to(np.sqrt(model.s2 * dt / model.V), state.data.shape)
+    eps = np.finfo(float).eps
+    cur, previous = state, None
+    pairs = 0
+    labs = case_labels(case) + ["backend:" + backend]
+    for i in range(n):
+        t = case["t0"] + i * dt
+        new = run_solve(eq, cur, case, t, 1, backend=backend)
+        u, u_new = np.array(cur.data, dtype=float), np.array(new.data, dtype=float)
+        if case["solver"] == "implicit":
+            det = dt * model.rate(u_new, t + dt)
+            slack = 2 * case["maxerror"]  # convergence criterion of the iteration, contraction <= 0.3
+        else:
+            det = dt * model.rate(u, t)
+            slack = 0.0
+        rest = u_new - u - det
+        # error of an inferred normal number (round-off of the state, iteration error, cell volumes)
+        cond = (64 * eps * (np.abs(u) + np.abs(u_new) + np.abs(det)) + slack) / amp + model.rtol * np.abs(rest / amp)
+        xi = (rest / amp).reshape((-1,) + tuple(grid.shape))
+        cond = cond.reshape(xi.shape)
+        if not np.all(np.isfinite(xi)):
+            return {"nt": False, "labels": ["overflow"]}
+        well = [bool(np.max(c) <= 1e-8) for c in cond]
+        if float(np.max(np.abs(xi[well]), initial=0.0)) > 10.0:  # P(|N(0,1)| > 10) = 1.5e-23
+            j = np.unravel_index(int(np.argmax(np.abs(xi) * np.array(well).reshape((-1,) + (1,) * grid.num_axes))),
+                                 xi.shape)
+            raise Violation(
+                f"[{backend}] {case['solver']} step {i}: the stochastic increment at {j} is {xi[j]:.3g} times the "
+                f"documented standard deviation sqrt(var*dt/V) = {amp.reshape(xi.shape)[j]:.3g}",
+                key=f"independent:{backend}:{case['solver']}:{case['state']['kind']}:amplitude")
+        for a in range(len(xi)):
+            if not well[a]:
+                continue
+            if float(np.max(np.abs(xi[a]))) == 0.0:
+                raise Violation(
+                    f"[{backend}] {case['solver']} step {i}: component {a} with variance > 0 "
+                    f"(standard deviation {amp.reshape(xi.shape)[a].max():.3g}) received no noise at all",
+                    key=f"independent:{backend}:{case['solver']}:{case['state']['kind']}:no-noise")
+            for b in range(a + 1, len(xi)):
+                if not well[b]:
+                    continue
+                pairs += 1
+                d = float(np.max(np.abs(xi[a] - xi[b])))
+                if d <= 1e-6:
+                    raise Violation(
+                        f"[{backend}] {case['solver']} step {i}, state {case['state']['kind']} ranks "
+                        f"{case['state']['ranks']} on {ncell} cells: components {a} and {b} of the state data received "
+                        f"the SAME normal numbers (inferred xi differ by at most {d:.3g}; e.g. {xi[a].flat[0]!r} and "
+                        f"{xi[b].flat[0]!r} in the first cell) - every cell and component must get its own draw",
+                        key=f"independent:{backend}:{case['solver']}:{case['state']['kind']}:same-realization")
+            if previous is not None and float(np.max(np.abs(xi[a] - previous[a]))) <= 1e-6:
+                raise Violation(
+                    f"[{backend}] {case['solver']}: component {a} received the same normal numbers in steps {i - 1} "
+                    f"and {i}", key=f"independent:{backend}:{case['solver']}:{case['state']['kind']}:same-in-two-steps")
+        previous = xi
+        cur = new
+    labs.append("pairs>0" if pairs else "pairs=0")
+    labs.append(f"components:{min(len(xi), 9)}")
+    return {"nt": pairs > 0, "labels": labs}
+
+
+# --------------------------------------------------------------------------------------
+# several equations from ONE noise specification object
+# --------------------------------------------------------------------------------------
+@st.composite
+def reuse_cases(draw):
+    case = draw(sde_cases(solvers=("euler",), families=("pde", "pde", "rd"), max_steps=4,
+                          pde_variants=("vector", "two_scalars", "scalar_vector", "three", "two_scalars", "three"),
+                          noise_as_options=("dict", "dict", "dict", "list", "array")))
+    eqs = []
+    for _ in range(draw(st.integers(2, 3))):
+        eqs.append({
+            "solver": draw(st.sampled_from(["euler", "euler", "milstein"])),
+            "rng": {"seed": draw(st.integers(0, 2**32 - 1)), "as": draw(st.sampled_from(["int", "generator", "advanced"])),
+                    "skip": draw(st.integers(1, 7))},
+            # a ReactionDiffusionPDE specification is also handed to the PDE class itself
+            "as_pde": draw(st.booleans()) if case["eq"]["family"] == "rd" else True,
+        })
+    case["eqs"] = eqs
+    case["reverse_keys"] = draw(st.booleans())
+    case["share_rhs"] = draw(st.booleans())
+    return case
+
+
+def check_noise_reuse(case):
+    """every equation built from one and the same ``noise`` object (dict / list / array owned by the caller)
+    adds the documented increment with the variances of that specification: n-step run against the reference
+    recursion with the parallel generator, exactly as in ``euler_maruyama`` / ``milstein``"""
+    grid = gg.build_grid(case["grid"])
+    eqc = case["eq"]
+    container = eqc["noise_as"]
+    shared = pde_noise_argument(case, reverse=case["reverse_keys"])  # ONE object for all equations
+    rhs_shared = None
+    if case["share_rhs"] and all(e["as_pde"] for e in case["eqs"]):
+        rhs_shared = rd_as_pde_rhs(eqc) if eqc["family"] == "rd" else dict(eqc["rhs"])
+    elif case["share_rhs"] and eqc["family"] == "rd" and not any(e["as_pde"] for e in case["eqs"]):
+        rhs_shared = dict(eqc["sources"])
+    labs = []
+    for k, e in enumerate(case["eqs"]):
+        sub = dict(case, solver=e["solver"], rng=e["rng"])
+        cls = "PDE" if e["as_pde"] else "ReactionDiffusionPDE"
+        eq = make_equation(sub, grid, make_rng(sub), noise_obj=shared, rhs_obj=rhs_shared, as_pde=e["as_pde"])
+        try:
+            rec = judge_explicit(sub, grid, eq)
+        except Violation as v:
+            what = (v.key or "").rsplit(":", 1)[-1]
+            raise Violation(
+                f"equation #{k + 1} ({cls}, {e['solver']}) of {len(case['eqs'])} built from ONE shared noise "
+                f"{container} object (now {shared!r}): {v.detail}",
+                key=f"reuse:{container}:{'first' if k == 0 else 'later'}-equation:{what}") from None
+        labs = rec["labels"]
+        labs += ["class:" + cls, "eq-solver:" + e["solver"]]
+    labs = sorted(set(labs) - {"solver:euler", "solver:milstein"})
+    labs += ["noise_as:" + container, f"equations:{len(case['eqs'])}",
+             "rhs-object-shared" if rhs_shared is not None else "rhs-object-fresh"]
+    if container == "dict":
+        labs.append("dict-partial" if len(shared) < len(field_names(eqc)) else "dict-full")
+        labs.append("dict-reversed" if case["reverse_keys"] and len(shared) > 1 else "dict-in-order")
+    return {"nt": True, "labels": labs}
+
+
+# --------------------------------------------------------------------------------------
 def _sub(name, strategy, check, quick, thorough, shards, mode="nojit", rule="", tl=None):
     return SubCheck(name, strategy=strategy, check=check, mode=mode,
                     budget={"quick": quick, "thorough": thorough}, shards={"quick": shards[0], "thorough": shards[1]},
@@ -807,4 +1067,10 @@ SUBCHECKS = [
          rule="numba backend compiled (tiny sample)"),
     _sub("tiny_variance", tiny_cases, check_tiny_variance, 30, 200, (1, 1),
          rule="every case has 0 < variance <= 1e-14 on cells of volume <= 1e-9 (increments of order 1e-3)"),
+    _sub("numba_components_independent", independent_cases, check_components_independent, 150, 2000, (1, 2),
+         rule="numba backend interpreted (the shape of the draw is fixed in python-level code); non-trivial = at "
+              "least one pair of well-conditioned components / fields compared"),
+    _sub("noise_dict_reused", reuse_cases, check_noise_reuse, 200, 3000, (1, 1), mode="pure",
+         rule="2-3 equations (PDE / ReactionDiffusionPDE) from one shared noise dict / list / array object, numpy "
+              "backend; every case is non-trivial"),
 ]
